@@ -267,6 +267,41 @@ func (e *vf14Env) run(run *verifrt.Run, c vf14Case) {
 			sort.Strings(unreported)
 			report("skip-report", fmt.Sprintf("tables %v have a bad checksum and were skipped, but the output never mentions them: %q", unreported, out))
 		}
+		// the same driver object initialised again after the firmware image changed: the root table now lists only
+		// a prefix of the tables. Differential oracle: the re-initialised driver must register exactly what a freshly
+		// probed driver registers on the new image (no state may survive from the first enumeration).
+		for k := len(addrs) - 1; k >= 1 && k >= len(addrs)-2; k-- {
+			mkTable(off, rootSig, sizeofHdr+entW*k, c.Rev, func(b []byte) {
+				for i, a := range addrs[:k] {
+					if entW == 4 {
+						*(*uint32)(unsafe.Pointer(&b[sizeofHdr+4*i])) = uint32(a)
+					} else {
+						*(*uint64)(unsafe.Pointer(&b[sizeofHdr+8*i])) = uint64(a)
+					}
+				}
+			})
+			fresh, _ := probeForACPI().(*acpiDriver)
+			if fresh == nil {
+				break
+			}
+			var w1, w2 bytes.Buffer
+			e1, e2 := fresh.DriverInit(&w1), d.DriverInit(&w2)
+			if (e1 == nil) != (e2 == nil) {
+				report("reinit-differs", fmt.Sprintf("root table cut to %d entries: a fresh driver returns %v, the re-initialised one %v", k, e1, e2))
+				break
+			}
+			a, b := map[string]uintptr{}, map[string]uintptr{}
+			for n, v := range fresh.tableMap {
+				a[n] = uintptr(unsafe.Pointer(v))
+			}
+			for n, v := range d.tableMap {
+				b[n] = uintptr(unsafe.Pointer(v))
+			}
+			if fmt.Sprint(a) != fmt.Sprint(b) {
+				report("reinit-differs", fmt.Sprintf("root table cut to %d entries: a fresh driver registers %v, the same driver initialised again registers %v", k, vfFmtMap(a), vfFmtMap(b)))
+				break
+			}
+		}
 	}()
 	if pan != nil {
 		report("panic", fmt.Sprint(pan))
@@ -434,6 +469,6 @@ func TestVerifC14(t *testing.T) {
 		}
 		run.Count("real_window_cases", 40)
 	}
-	run.Finish(true, fmt.Sprintf("2 revisions x every admissible 16-byte slot of a %d-slot search window x", env.winSlots)+" 4 decoy layouts x every order of <=3 (thorough: 4) of {APIC,HPET,SSDT,FACP} x every corruption subset x DSDT {valid,corrupt} x {one, both} DSDT pointers; root pointer with a bad checksum only; bad-checksum structures corrupted in the first 20 bytes or (revision 2) in the extended part only, of the same or of the other revision than the genuine pointer; arbitrary bytes behind a revision-0 structure; listed tables and DSDTs of 2047..200000 bytes filled with {00,7f,80,a5,ff}, valid and corrupted; first/last admissible slots of the real BIOS area 0xe0000-0xfffff",
+	run.Finish(true, fmt.Sprintf("2 revisions x every admissible 16-byte slot of a %d-slot search window x", env.winSlots)+" 4 decoy layouts x every order of <=3 (thorough: 4) of {APIC,HPET,SSDT,FACP} x every corruption subset x DSDT {valid,corrupt} x {one, both} DSDT pointers; root pointer with a bad checksum only; bad-checksum structures corrupted in the first 20 bytes or (revision 2) in the extended part only, of the same or of the other revision than the genuine pointer; arbitrary bytes behind a revision-0 structure; listed tables and DSDTs of 2047..200000 bytes filled with {00,7f,80,a5,ff}, valid and corrupted; first/last admissible slots of the real BIOS area 0xe0000-0xfffff; after every case the same driver is initialised again on the image with its root table cut to n-1 and n-2 entries and compared with a freshly probed driver",
 		"distinct = (revision, table count, corruption mask, DSDT state)")
 }
